@@ -58,6 +58,14 @@ class World:
         cfg["socket_module"] = self.net
         stack = spec.get("stack", "client")
         self.stack = stack
+        if "pooled" in stack:
+            # pool.py stores time.time in _idle_clock at construction: substitute the virtual clock first
+            import pymemcache.pool as poolmod
+
+            class _PT:
+                time = staticmethod(self.clock.time)
+            self._saved_pool_time = (poolmod, poolmod.time)
+            poolmod.time = _PT
         first = servers[0] if isinstance(servers[0], str) else (servers[0][0], servers[0][1])
         hash_servers = [s if isinstance(s, str) else (s[0], s[1]) for s in servers]
         if stack == "client":
@@ -83,6 +91,9 @@ class World:
 
     def close(self):
         sv = getattr(self, "_saved_time", None)
+        if sv:
+            sv[0].time = sv[1]
+        sv = getattr(self, "_saved_pool_time", None)
         if sv:
             sv[0].time = sv[1]
 
